@@ -32,7 +32,7 @@ RULE = ("Hypothesis generates a module tree (depth<=3, <=5 nodes); every node ho
         "canonical hash of the case.")
 ASSUMPTIONS = [
     "Clock toggles and reset/control/data changes are separate events (a value changing in the very instant of the edge that samples it is a race nobody defines).",
-    "Inserter controls are one bit wide. A memory read port's output is not compared from the moment its domain's own reset is asserted until its next enabled read.",
+    "Inserter controls are one bit wide. A memory read port's output is expected to be unaffected by resets (inserted or the domain's own).",
     "Behaviour of asynchronous-reset domains is judged against the property statement (the language guide leaves it undocumented).",
 ]
 QUICK_SHARDS = 4
@@ -314,8 +314,7 @@ def ref_edge(refs, active, ctl, rst):
                 mm = ref.node["mem"]
                 en_all = all(ctl[c] for kind, c in ctrl if kind == "E")
                 if mm["r"] == d:
-                    if dom_rst:
-                        ref.mem["_rx"] = True
+                    # the domain's own reset does not touch a read port's output (there is no reset on the memory cell)
                     if ref.mem["ren"] and en_all:
                         a = ref.mem["raddr"]
                         val = ref.mem["rows"][a]
@@ -376,8 +375,6 @@ def ref_async_reset(refs, dom):
             for part, mask in ref.split_masks().items():
                 if sp[part] == d:
                     ref.split = (ref.split & ~mask) | (sp["init"] & mask)
-            if ref.mem and ref.node["mem"]["r"] == d:
-                ref.mem["rx"] = True
         ref.vals = it.settle(ref.vals, ref.fstate)
 
 
